@@ -169,6 +169,14 @@ pub fn render_file(f: &Value) -> String {
         o.push_str(&render_item(&it));
         o.push('\n');
     }
+    if f.get("compact").and_then(|x| x.as_bool()).unwrap_or(false) {
+        // the whole file on one line (line comments dropped first): layout must not matter
+        o = o.lines().filter(|l| !l.trim_start().starts_with("//")).collect::<Vec<_>>().join(" ");
+        o.push('\n');
+    }
+    if f.get("shebang").and_then(|x| x.as_bool()).unwrap_or(false) {
+        o = format!("#!/usr/bin/env rust-script\n{}", o);
+    }
     o
 }
 
@@ -372,12 +380,20 @@ pub fn exec_project(input: &Value) -> (Value, Value) {
         let _ = std::fs::write(&p, render_file(&f));
     }
     let _ = std::fs::create_dir_all(&src);
-    in2["project"]["abs_root"] = json!(src.to_string_lossy());
+    let relative = input["project"].get("relative").and_then(|x| x.as_bool()).unwrap_or(false);
+    let old_cwd = std::env::current_dir().ok();
+    let project_arg: String = if relative {
+        let _ = std::env::set_current_dir(src.parent().unwrap());
+        "src-tauri".to_string()
+    } else {
+        src.to_string_lossy().to_string()
+    };
+    in2["project"]["abs_root"] = json!(project_arg);
     let out_dir = root.join("out");
     let cfgv = &input["config"];
     let imp = guarded(|| {
         let mut cfg = GenerateConfig::default();
-        cfg.project_path = src.to_string_lossy().to_string();
+        cfg.project_path = project_arg.clone();
         cfg.output_path = out_dir.to_string_lossy().to_string();
         cfg.validation_library = if s(cfgv, "mode") == "zod" { "zod".into() } else { "none".into() };
         if let Some(o) = cfgv.get("mappings").and_then(|m| m.as_object()) {
@@ -400,7 +416,24 @@ pub fn exec_project(input: &Value) -> (Value, Value) {
             Err(e) => return json!({"analysis_error": e.to_string()}),
         };
         let rel = |p: &str| -> String {
-            Path::new(p).strip_prefix(&src).map(|x| x.to_string_lossy().to_string()).unwrap_or_else(|_| p.to_string())
+            Path::new(p).strip_prefix(&project_arg).map(|x| x.to_string_lossy().to_string()).unwrap_or_else(|_| p.to_string())
+        };
+        // the same analysis with verbose output switched on must find the same things
+        let verbose_same = {
+            let mut a2 = CommandAnalyzer::new();
+            if let Some(m) = &cfg.type_mappings {
+                a2.add_type_mappings(m);
+            }
+            match a2.analyze_project_with_verbose(&cfg.project_path, true) {
+                Ok(c2) => {
+                    let mut n1: Vec<&String> = analyzer.get_discovered_structs().keys().collect();
+                    let mut n2: Vec<&String> = a2.get_discovered_structs().keys().collect();
+                    n1.sort();
+                    n2.sort();
+                    c2.len() == commands.len() && n1 == n2 && a2.get_discovered_events().len() == analyzer.get_discovered_events().len()
+                }
+                Err(_) => false,
+            }
         };
         let cmds: Vec<Value> = commands.iter().map(|c| json!({
             "name": c.name, "file": rel(&c.file_path), "is_async": c.is_async, "return_type": c.return_type,
@@ -429,6 +462,11 @@ pub fn exec_project(input: &Value) -> (Value, Value) {
         let mut files: HashMap<String, String> = HashMap::new();
         let mut gen_result = json!(null);
         if !commands.is_empty() {
+            // the output directory already holds (longer) files of an earlier state: they must be replaced, not overlaid
+            let _ = std::fs::create_dir_all(&out_dir);
+            for n in ["types.ts", "commands.ts", "events.ts", "index.ts"] {
+                let _ = std::fs::write(out_dir.join(n), "// stale line of an earlier generation\nexport const stale = {;\n".repeat(4000));
+            }
             let mut generator = create_generator(Some(cfg.validation_library.clone()));
             match generator.generate_models(&commands, structs_map, &cfg.output_path, &analyzer, &cfg) {
                 Ok(list) => {
@@ -458,8 +496,11 @@ pub fn exec_project(input: &Value) -> (Value, Value) {
             }
         }
         json!({"commands": cmds, "events": events, "structs": structs, "deps": deps, "generated": gen_result, "files": files,
-               "alt_types": alt_types})
+               "alt_types": alt_types, "verbose_same": verbose_same})
     });
+    if let Some(c) = old_cwd {
+        let _ = std::env::set_current_dir(c);
+    }
     let _ = std::fs::remove_dir_all(&root);
     (in2, imp)
 }
@@ -551,7 +592,7 @@ fn emit_expr(rng: &mut Rng, ev_names: &[&str], type_names: &[String], locals_all
         _ => json!({"k": "field", "base": {"k": "path", "segs": ["state"]}, "name": "emitter"}), // not recognised
     };
     let name = rng.pick(ev_names).to_string();
-    let payload = match rng.below(12) {
+    let payload = match rng.below(13) {
         0 => json!({"k": "lit", "text": "\"text\"", "lit": "str"}),
         1 => json!({"k": "lit", "text": "42", "lit": "int"}),
         2 => json!({"k": "lit", "text": "1.5", "lit": "float"}),
@@ -563,6 +604,7 @@ fn emit_expr(rng: &mut Rng, ev_names: &[&str], type_names: &[String], locals_all
         8 => json!({"k": "tuple", "es": []}),
         9 if adversarial => json!({"k": "call", "func": {"k": "path", "segs": ["compute"]}, "args": []}),
         10 if adversarial => json!({"k": "path", "segs": ["unknown_var"]}),
+        11 if adversarial && !type_names.is_empty() => json!({"k": "path", "segs": ["models", rng.pick(type_names), "Active"]}),
         _ => json!({"k": "lit", "text": "\"x\"", "lit": "str"}),
     };
     let name_expr = if rng.chance(1, 12) {
@@ -607,7 +649,7 @@ pub fn random_project(rng: &mut Rng, nfiles: usize, adversarial: bool, externs: 
     for t in 0..ntypes {
         // stems include names ending in `Schema` / `Params`-like words and names of well-known std types used as *user* types
         let name = if rng.chance(1, 8) {
-            (*rng.pick(&["TableSchema", "Path", "PathBuf", "Duration", "Value", "Params", "Channel0", "Result0", "OptionLike"])).to_string() + if t % 2 == 0 { "" } else { "X" }
+            (*rng.pick(&["TableSchema", "Path", "PathBuf", "Duration", "Value", "Params", "Channel0", "Result0", "OptionLike", "設定", "用户", "Ünit", "Ωmega"])).to_string() + if t % 2 == 0 { "" } else { "X" }
         } else {
             format!("{}{}", rng.pick(&["User", "Order", "Item", "Config", "Event", "Status", "Mode"]), t)
         };
@@ -620,7 +662,12 @@ pub fn random_project(rng: &mut Rng, nfiles: usize, adversarial: bool, externs: 
         } else {
             rng.pick(&["derive(Debug, Clone)", "derive(Default)", "derive(MySerializeLike)"]).to_string()
         };
-        let mut attrs = vec![attr(&derive)];
+        let mut attrs = if serde && rng.chance(1, 5) {
+            // serde derives in a second `#[derive]` attribute
+            vec![attr("derive(Debug, Clone)"), attr("derive(Serialize, Deserialize)")]
+        } else {
+            vec![attr(&derive)]
+        };
         if rng.chance(1, 3) {
             let rules: &[&str] = if adversarial { &["camelCase", "snake_case", "PascalCase", "UPPERCASE", "kebab-case", "SCREAMING-KEBAB-CASE", "lowercase"] } else { &["camelCase", "snake_case", "PascalCase", "UPPERCASE"] };
             attrs.push(attr(&format!("serde(rename_all = \"{}\")", rng.pick(rules))));
@@ -690,7 +737,11 @@ pub fn random_project(rng: &mut Rng, nfiles: usize, adversarial: bool, externs: 
                 pa.push(attr(&format!("serde(rename = \"p{}\")", k)));
             }
             locals.push((pname.clone(), ty.render()));
-            params.push(value_param(&pname, &ty, pa));
+            let mut vp = value_param(&pname, &ty, pa);
+            if rng.chance(1, 6) {
+                vp["pat"] = json!(format!("mut {}", pname));
+            }
+            params.push(vp);
         }
         if rng.chance(1, 2) {
             params.insert(0, raw_param("app", *rng.pick(INJECTED), "injected"));
@@ -867,7 +918,8 @@ pub fn random_project(rng: &mut Rng, nfiles: usize, adversarial: bool, externs: 
     }
     let mut files: Vec<Value> = Vec::new();
     for (i, items) in items_per_file.into_iter().enumerate() {
-        files.push(json!({"path": format!("{}f{}.rs", dirs[i % dirs.len()], i), "items": items}));
+        files.push(json!({"path": format!("{}f{}.rs", dirs[i % dirs.len()], i), "items": items,
+                          "compact": rng.chance(1, 5), "shebang": rng.chance(1, 6)}));
     }
     // layout decoys
     files.push(json!({"path": "target/debug/build/gen.rs", "items": [{"k": "fn", "name": "hidden_in_target", "attrs": [attr("tauri::command")], "vis": "pub", "async": false, "params": [], "ret": null, "body": []}]}));
@@ -878,6 +930,11 @@ pub fn random_project(rng: &mut Rng, nfiles: usize, adversarial: bool, externs: 
     }
     if rng.chance(1, 3) {
         files.push(json!({"path": "sub/empty.rs", "raw": ""}));
+    }
+    if !adversarial && rng.chance(1, 6) {
+        // the project is addressed by a *relative* path from a directory that has an ancestor called `target`:
+        // nothing below the project path is excluded by that
+        return json!({"files": files, "root_prefix": "clients/target/pos-app", "relative": true});
     }
     json!({"files": files, "root_prefix": if adversarial && rng.chance(1, 6) { "x/target/y" } else { "" }})
 }
